@@ -1,6 +1,6 @@
 (* C01 — evaluating a function returns the polynomial's mathematical value.
    Property theorems only; each is closed by [exact] of a lemma of the development. *)
-Require Import Ommx.Num Ommx.Poly Ommx.Msg Ommx.Eval Ommx.Tree Ommx.RunC01.
+Require Import Ommx.Num Ommx.Poly Ommx.Msg Ommx.Eval Ommx.Tree Ommx.FEval Ommx.F64 Ommx.RunC01.
 From Coq Require Import String.
 
 (* value = sum of coefficient times product of variable values, for every valuation that
@@ -34,6 +34,38 @@ Theorem C01_comparator_sound : forall f s rv rids tags,
     (forall rho, agrees rho s -> q = denote f rho) /\ (forall i, In i ids' <-> occurs f i).
 Proof. exact judge_eval_ok_sound. Qed.
 Print Assumptions C01_comparator_sound.
+
+
+(* "up to floating-point rounding ... within a rigorous rounding bound": for EVERY rounding
+   operator with relative error at most u (the standard model of floating-point arithmetic), the
+   evaluation in which each addition and multiplication is rounded, performed in the order of the
+   Rust code, differs from the exact value by at most ((1+u)^K - 1) * sum_t |c_t| prod |x_i|, with
+   K = fn_ops f (number of terms + largest number of factors of a term) *)
+Theorem C01_rounding_bound : forall rnd u, 0 <= u -> (forall z, qabs (rnd z - z) <= u * qabs z) ->
+  forall f s vh v ids, ffn_eval rnd f s = Some vh -> fn_eval f s = Some (v, ids) ->
+  qabs (vh - v) <= (gpow u (fn_ops f) - 1) * fn_mag f s.
+Proof. exact ffn_eval_bound. Qed.
+Print Assumptions C01_rounding_bound.
+
+(* the instance used by the correspondence: round-to-nearest-even at 53 bits (binary64 where the
+   result is neither subnormal nor overflowing) satisfies the hypothesis with u = 2^-53, for every
+   rational; the SDK's answer on arbitrary binary64 data is compared bit for bit with this
+   rounded evaluation (float stream) *)
+Theorem C01_rounding_binary64 : forall f s vh v ids,
+  ffn_eval rnd53 f s = Some vh -> fn_eval f s = Some (v, ids) ->
+  qabs (vh - v) <= (gpow u53 (fn_ops f) - 1) * fn_mag f s.
+Proof. exact f64_eval_bound. Qed.
+Print Assumptions C01_rounding_binary64.
+
+Example C01_rounding_nonvacuous :
+  (* 1/3 is not a binary64: rounding is real, and stays within the bound *)
+  let third := rnd53 (Q2Qc (1 # 3)) in
+  let l := FLin {| l_terms := [(1%N, third); (2%N, third)]; l_const := third |} in
+  let s := [(1%N, third); (2%N, Q2Qc (3 # 1))] in
+  exists vh v ids, ffn_eval rnd53 l s = Some vh /\ fn_eval l s = Some (v, ids) /\ vh <> v /\
+                   qabs (vh - v) <= (gpow u53 (fn_ops l) - 1) * fn_mag l s.
+Proof. eexists; eexists; eexists. split; [vm_compute; reflexivity|]. split; [vm_compute; reflexivity|].
+  split; [intro H; discriminate H|]. vm_compute. intro H; discriminate H. Qed.
 
 (* non-vacuity: a quadratic with a lower-triangular entry, a repeated entry, an explicit zero
    and an absent linear part, evaluated at a covering state *)
